@@ -7,6 +7,7 @@ import (
 	"fmt"
 	"reflect"
 	"sync/atomic"
+	"time"
 
 	sentinel "github.com/alibaba/sentinel-golang/api"
 	"github.com/alibaba/sentinel-golang/core/base"
@@ -37,6 +38,11 @@ type Cfg struct {
 	Late   bool `json:"late,omitempty"`
 	// NoIDs: the rules carry no ID (nothing then tells the manager which old rule a modified one continues)
 	NoIDs bool `json:"no_ids,omitempty"`
+	// Nap (few-counters mode): behind the concurrency rules of every resource sits a hot-parameter throttling rule
+	// that never rejects but makes a request for a value seen a moment ago wait INSIDE the admission path - after
+	// the concurrency check, before the entry is counted. While it waits (Sleep at the clock seam) requests of
+	// other callers for fresh values come and go, more of them than the rules have counters.
+	Nap bool `json:"nap,omitempty"`
 }
 
 type P struct{}
@@ -74,6 +80,7 @@ func (P) Gen(rng *sim.Rng, tier string) *harness.Case {
 	alpha := alphabet
 	if smallCap {
 		alpha = wideAlphabet
+		cfg.Nap = rng.Chance(0.5)
 	}
 	id := 0
 	for r := 0; r < cfg.NRes; r++ {
@@ -241,6 +248,16 @@ func build(cfg *Cfg, o *harness.Outcome) [][]*mrule {
 			o.Probe("few_counters_configured")
 		}
 	}
+	if cfg.Nap {
+		for r := 0; r < cfg.NRes; r++ {
+			if len(rules[r]) == 0 {
+				continue
+			}
+			first := rules[r][0]
+			all = append(all, &hotspot.Rule{ID: fmt.Sprintf("nap%d", r), Resource: harness.ResName(r), MetricType: hotspot.QPS, ControlBehavior: hotspot.Throttling,
+				ParamIndex: first.Index, ParamKey: first.Key, Threshold: 1, DurationInSec: 1, MaxQueueingTimeMs: 1 << 40})
+		}
+	}
 	harness.Call(o, "C06.panic", 0, func() {
 		if _, err := hotspot.LoadRules(all); err != nil {
 			o.Fail("C06.load-error", 0, "%v", err)
@@ -331,7 +348,30 @@ func (P) Exec(c *harness.Case) *harness.Outcome {
 	var ents []*ment
 	cappedThenFreed := map[string]bool{}
 	capped := map[string]bool{}
+	curRes, napping, fresh := 0, false, 100000
+	if cfg.Nap {
+		env.Clock.OnSleep = func(d time.Duration) {
+			if !napping {
+				napping = true
+				o.Probe("requests_for_other_values_while_one_waits_inside_the_admission_path")
+				for j := 0; j < 6 && !o.Failed(); j++ {
+					fresh++
+					v := fresh
+					harness.Call(o, "C06.panic", 0, func() {
+						if e, _ := sentinel.Entry(harness.ResName(curRes), harness.EntryOpts(1, false, []interface{}{v, v}, map[interface{}]interface{}{"k": v}, nil)...); e != nil {
+							e.Exit()
+						}
+					})
+				}
+				napping = false
+			}
+			if d > 0 {
+				env.Clock.AdvanceNs(uint64(d))
+			}
+		}
+	}
 	for step, op := range c.Callers[0] {
+		curRes = op.R
 		switch op.K {
 		case "tick":
 			env.Clock.AdvanceMs(op.N)
